@@ -163,6 +163,9 @@ pub struct SetEng<'c, KD: Kind, const N: usize> {
     pub groups: u8,
     pub dup_paths: u32,
     pub poisoned: bool,
+    /// a container is malformed (duplicate keys, len disagrees with iteration, dead element) and
+    /// the armed property does not own that: the rest of the case is discarded
+    pub abandon: bool,
     pub op_overflow: bool,
     pub ever_overflow: bool,
     pub ever_cloned: bool,
@@ -257,6 +260,7 @@ where
         let (p_well, p_ledger, p_canary, p_leak) = (P_WELL.inter(elig), P_LEDGER.inter(elig), P_CANARY.inter(elig), P_LEAK.inter(elig));
         let p_all = p_well.union(p_ledger).union(state0);
         let mut stored: Vec<u32> = Vec::new();
+        let mut malformed = false;
         for w in 0..2 {
             let (state, ident) = if target == 2 || target == w { (state0, ident0) } else { (P15, P15) };
             let Some(slot) = self.slots[w].as_mut() else { continue };
@@ -271,6 +275,9 @@ where
             };
             let len = slot.c.m.len();
             let cap = slot.c.m.capacity();
+            if obs.len() != len || len > cap || obs.iter().any(|o| !o.live) {
+                malformed = true;
+            }
             cx.chk(p_well, obs.len() == len, "len-vs-iter", || format!("len()={} but iteration yields {} elements", len, obs.len()));
             cx.chk(p_well, slot.c.m.is_empty() == (len == 0), "is_empty", || format!("is_empty()={} with len()={}", slot.c.m.is_empty(), len));
             cx.chk(p_well, len <= cap, "len-vs-capacity", || format!("len()={len} exceeds capacity()={cap}"));
@@ -295,6 +302,9 @@ where
             if !liar {
                 for (i, a) in obs.iter().enumerate() {
                     for b in &obs[i + 1..] {
+                        if a.raw == b.raw {
+                            malformed = true;
+                        }
                         cx.chk(p_well, a.raw != b.raw, "duplicate-key", || format!("element {} is yielded twice by iteration", a.raw));
                     }
                 }
@@ -382,6 +392,12 @@ where
                 }
                 cx.chk(p_leak, ok, "leak", || msg);
             }
+        }
+        if malformed && !liar && !self.cx.failed() {
+            // broken container, and the armed property does not own that for this operation:
+            // nothing the model says afterwards is about this property any more
+            self.abandon = true;
+            self.poisoned = true;
         }
         self.faulted = false;
         self.op_overflow = false;
@@ -1715,6 +1731,7 @@ where
         lib_panicked: false,
         cur_target: 0,
         poisoned: false,
+        abandon: false,
         op_overflow: false,
         ever_overflow: false,
         ever_cloned: false,
@@ -1736,6 +1753,11 @@ where
             break;
         }
         if e.cx.failed() {
+            break;
+        }
+        if e.abandon {
+            e.cx.discard = true;
+            e.cx.bump(S::discarded_setups);
             break;
         }
     }
